@@ -295,6 +295,34 @@ func (sc *SpecCtx) call(x *SExpr) Val {
 	if f, ok := specFuncs[x.Name]; ok {
 		return f(sc, x)
 	}
+	if d, ok := e.defs[x.Name]; ok {
+		if len(d.Params) != len(args) {
+			sc.fail("%s expects %d arguments", d.Name, len(d.Params))
+		}
+		saved := map[string]*Val{}
+		var vals []Val
+		for _, a := range args {
+			vals = append(vals, sc.eval(a))
+		}
+		for i, pn := range d.Params {
+			if old, ok := sc.vars[pn]; ok {
+				o := old
+				saved[pn] = &o
+			} else {
+				saved[pn] = nil
+			}
+			sc.vars[pn] = vals[i]
+		}
+		res := sc.eval(d.Body.Expr)
+		for pn, o := range saved {
+			if o == nil {
+				delete(sc.vars, pn)
+			} else {
+				sc.vars[pn] = *o
+			}
+		}
+		return res
+	}
 	sc.fail("unknown spec function %q", x.Name)
 	return Val{}
 }
@@ -307,6 +335,8 @@ func (sc *SpecCtx) typeArg(x *SExpr) string {
 		return x.Name
 	case "deref":
 		return "*" + sc.typeArg(x.Args[0])
+	case "index":
+		return sc.typeArg(x.Args[0]) + "[" + sc.typeArg(x.Args[1]) + "]"
 	case "str":
 		return x.Name
 	}
